@@ -234,3 +234,69 @@ func ZZ_C22_impeach() {
 	zzAssertSameState(&c.state.StateKeyFrame, stt)
 	zzAssertSameCommittee(&c.KeyFrame, kf)
 }
+
+// ZZ_C22_perblock: the per-block steps of ProcessBlock that are logged in the
+// CR state history, on a block without CR transactions: a pending candidate
+// reaching six confirmations inside the voting period becomes active, a
+// candidate cancelled DepositLockupBlocks ago has its deposit released, and
+// the block before the next voting period records the voting start height.
+func ZZ_C22_perblock() {
+	cfg := zzCRConfig()
+	cfg.CRConfiguration.DutyPeriod = 100
+	cfg.CRConfiguration.VotingPeriod = 20
+	cfg.CRConfiguration.CRClaimPeriod = 5
+	c := zzCommittee(cfg)
+	c.InElectionPeriod = true
+	c.LastVotingStartHeight = nd.U32("lastVotingStartHeight")
+	switch nd.Choose("event", 3) {
+	case 0:
+		// inside the voting period that starts at LastVotingStartHeight
+		nd.Assume(c.LastVotingStartHeight <= zzH && zzH-c.LastVotingStartHeight < 20)
+		c.LastCommitteeHeight = 10
+		cand := zzCandidate(c, 0, Pending)
+		cand.RegisterHeight = zzH - 5 + uint32(nd.Choose("confirmationsShort", 2))
+	case 1:
+		c.LastCommitteeHeight = 10
+		nd.Assume(c.LastVotingStartHeight < 50)
+		cand := zzCandidate(c, 0, Canceled)
+		cand.CancelHeight = zzH - 10 + uint32(nd.Choose("lockupShort", 2))
+		delete(c.state.Nicknames, cand.Info.NickName)
+	default:
+		// the next voting period starts at LastCommitteeHeight + 100 - 20 - 5 - 1
+		c.LastCommitteeHeight = zzH - 74 + uint32(nd.Choose("notYet", 2))
+		nd.Assume(c.LastVotingStartHeight < 50)
+	}
+	st := c.state.StateKeyFrame.Snapshot()
+	kf := c.KeyFrame.Snapshot()
+	kf.NextMembers = copyMembersMap(c.NextMembers)
+	kf.ClaimedDPoSKeys = copyClaimedDPoSKeysMap(c.ClaimedDPoSKeys)
+	kf.NextClaimedDPoSKeys = copyClaimedDPoSKeysMap(c.NextClaimedDPoSKeys)
+	c.state.History.Commit(zzH - 1)
+	nd.NoPanic("process", func() {
+		c.recordLastVotingStartHeight(zzH)
+		c.updateVotingCandidatesState(zzH)
+		c.updateCandidatesDepositCoin(zzH)
+		c.state.History.Commit(zzH)
+	})
+	nd.Reach("processed")
+	for _, cd := range c.state.Candidates {
+		if cd.State == Active {
+			nd.Reach("candidate_activated")
+		}
+	}
+	for _, di := range c.state.DepositInfo {
+		for _, was := range st.DepositInfo {
+			if di.DepositAmount != was.DepositAmount {
+				nd.Reach("deposit_released")
+			}
+		}
+	}
+	if c.LastVotingStartHeight == zzH+1 {
+		nd.Reach("voting_start_recorded")
+	}
+	nd.NoPanic("rollback", func() {
+		nd.Assert(c.state.History.RollbackTo(zzH-1) == nil, "rollback_of_one_block_succeeds")
+	})
+	zzAssertSameState(&c.state.StateKeyFrame, st)
+	zzAssertSameCommittee(&c.KeyFrame, kf)
+}
